@@ -72,6 +72,9 @@ pub fn gen_cfg(rng: &mut Rng, hard: bool) -> Cfg {
 }
 
 fn classify_cli(stderr: &str, signal: Option<i32>) -> String {
+    if stderr.contains("LNVERIF-TIMEOUT") {
+        return "hang:timeout".into();
+    }
     if let Some(s) = signal {
         if stderr.contains("overflowed its stack") {
             return "abort:stack_overflow".into();
